@@ -22,7 +22,8 @@ RULE = ('enum: arrays of length n; extrema = every strictly increasing index seq
         'alternating from either kind; midpoints: omitted, or one per flank at every position in [start, end) (cartesian product), and '
         'with midpoints additionally an optional leading midpoint before the first extremum and trailing midpoint after the last one. '
         'pipeline: find_extrema (first_extrema in {peak, trough, None}, boundary in {0, 1, 2, 5}) + find_zerox on generated signals '
-        'cut so that the last extremum is 0..3 samples from the end; rises/decays supplied, omitted, or only one of them. Oracle: one '
+        'cut so that the last extremum is 0..3 samples from the end; rises/decays supplied, omitted, or only one of them; thorough only: '
+        'atheris / libFuzzer coverage-guided fuzzing (bytes -> placement on arrays up to length 64, empty corpus). Oracle: one '
         'value per sample; 0 at peaks; |pi| at troughs; -pi/2 at rises and +pi/2 at decays not coinciding with an extremum; finite values '
         'within [-pi, pi]; finite exactly on [first cyclepoint, last cyclepoint]; diff >= -1e-12 inside the span except across the '
         'sample pair ending at a trough. Non-trivial: last cyclepoint within 2 samples of the end, or a peak as last cyclepoint, or a '
@@ -178,9 +179,38 @@ def strat_pipeline(draw, tier):
             'mids': draw(st.sampled_from(['both', 'both', 'none', 'rises', 'decays']))}
 
 
+def decode(fdp):
+    n = fdp.ConsumeIntInRange(3, 64)
+    pos, seq = fdp.ConsumeIntInRange(0, 3), []
+    while pos < n and len(seq) < 16:
+        seq.append(pos)
+        pos += fdp.ConsumeIntInRange(2, 7)
+    if len(seq) < 2:
+        seq = [0, n - 1]
+    start = 'P' if fdp.ConsumeBool() else 'T'
+    kinds = [start if i % 2 == 0 else ('T' if start == 'P' else 'P') for i in range(len(seq))]
+    peaks = [i for i, k in zip(seq, kinds) if k == 'P']
+    troughs = [i for i, k in zip(seq, kinds) if k == 'T']
+    mode = fdp.ConsumeIntInRange(0, 3)
+    if mode == 0:
+        return {'n': n, 'peaks': peaks, 'troughs': troughs, 'rises': None, 'decays': None}
+    rises, decays = [], []
+    if mode == 3 and seq[0] > 0:
+        (decays if kinds[0] == 'T' else rises).append(fdp.ConsumeIntInRange(0, seq[0] - 1))
+    for a, b, k in zip(seq[:-1], seq[1:], kinds[:-1]):
+        (decays if k == 'P' else rises).append(fdp.ConsumeIntInRange(a, b - 1))
+    if mode == 3 and seq[-1] < n - 1:
+        (decays if kinds[-1] == 'P' else rises).append(fdp.ConsumeIntInRange(seq[-1] + 1, n - 1))
+    if mode == 2:
+        return {'n': n, 'peaks': peaks, 'troughs': troughs, 'rises': rises if fdp.ConsumeBool() else None, 'decays': decays}
+    return {'n': n, 'peaks': peaks, 'troughs': troughs, 'rises': rises, 'decays': decays}
+
+
 PARTS = [
     Part('exhaustive', check_enum, enum=enum, shards={'quick': 16, 'thorough': 16}, exhaustive=True,
          time_cap={'quick': 200, 'thorough': 3000}),
     Part('pipeline', check_pipeline, strategy=strat_pipeline, budget={'quick': 900, 'thorough': 40000},
          shards={'quick': 6, 'thorough': 16}),
+    Part('fuzz-atheris', check_enum, decode=decode, budget={'quick': 0, 'thorough': 3000000}, shards={'quick': 1, 'thorough': 12},
+         tiers=('thorough',), time_cap={'quick': 60, 'thorough': 1500}),
 ]
